@@ -48,6 +48,7 @@ let () =
       | _ -> "ERR args")
 
 let () = Handlers.install register
+let () = Hall.install register
 
 let () =
   try
